@@ -260,13 +260,20 @@ func TestChild(t *testing.T) {
 		mon.Apply(x.R, o)
 	}
 	elec := &spb.Uint128{Low: 10}
-	open := func(name string) *drv.Session {
+	openE := func(name string) (*drv.Session, string, error) {
 		s := &drv.Session{Stream: drv.OpenModify(srv), Name: name, DefaultNI: g.S.Default}
 		if _, err := s.Params(drv.SinglePrimary(false)); err != nil {
-			t.Fatalf("%s params: %v", name, err)
+			return nil, "negotiation", err
 		}
 		if _, err := s.Elect(elec); err != nil {
-			t.Fatalf("%s elect: %v", name, err)
+			return nil, "election", err
+		}
+		return s, "", nil
+	}
+	open := func(name string) *drv.Session {
+		s, step, err := openE(name)
+		if err != nil {
+			t.Fatalf("%s %s: %v", name, step, err)
 		}
 		return s
 	}
@@ -374,7 +381,19 @@ func TestChild(t *testing.T) {
 		w.InFlight(fmt.Sprintf("[%s via_server=%v mutations=%v] %s", class, viaServer, muts, in))
 		if viaServer {
 			spec.Op.ElectionId = elec
-			res := worker.Ops([]*spb.AFTOperation{spec.Op}, elec)
+			batch := []*spb.AFTOperation{spec.Op}
+			if r.Intn(4) == 0 {
+				// the input is the first operation of a request that goes on with well-formed
+				// operations (idempotent DELETEs of next-hops that never exist: whether or not the
+				// server gets to them, the state is the same)
+				for k := 0; k < 1+r.Intn(4); k++ {
+					g.NextID++
+					batch = append(batch, &spb.AFTOperation{Id: g.NextID, NetworkInstance: g.S.Default, Op: spb.AFTOperation_DELETE, ElectionId: elec,
+						Entry: &spb.AFTOperation_NextHop{NextHop: &aftpb.Afts_NextHopKey{Index: uint64(0xFFFFFF00 + k)}}})
+				}
+				cnt["inputs_followed_by_further_operations_in_the_same_request"]++
+			}
+			res := worker.Ops(batch, elec)
 			switch {
 			case res.RPCErr == drv.ErrWatchdog:
 				if ok, desc := mon.ProvenBlock("gribigo/server.", 500*time.Millisecond); ok {
@@ -444,7 +463,22 @@ func TestChild(t *testing.T) {
 		if reopen {
 			// a new session announcing the same id becomes the primary (held operations of the
 			// previous primary are dropped at that point, outside the compared window)
-			worker = open("worker")
+			nw, step, err := openE("worker")
+			switch {
+			case err == drv.ErrWatchdog:
+				// the input ended its own RPC - and now nobody else is served
+				if ok, desc := mon.ProvenBlock("gribigo/server.", 500*time.Millisecond); ok {
+					problem("hang:"+mon.BlockSignature(desc), "after this input ended its RPC the "+step+" of a new session is never answered and the server is permanently blocked: "+desc, in, muts)
+				} else {
+					w.Record(map[string]any{"kind": "inconclusive", "text": "the " + step + " of a new session hit the watchdog without a proven block: " + desc})
+				}
+				stats["aborted"] = "watchdog"
+				goto done
+			case err != nil:
+				problem("new-session-rejected-after-malformed-input", fmt.Sprintf("after this input ended its RPC the %s of a new session failed: %v", step, err), in, muts)
+				goto done
+			}
+			worker = nw
 		}
 		detail = fmt.Sprintf("%s (held before=%s after=%s)", detail, before.held, after.held)
 		d := before.diff(after)
